@@ -29,11 +29,11 @@ CHECKS = {
     "C02": {
         "test": "TestC02", "level": "exploration",
         "technique": "model-based stateful property testing (rapid): generated iterator walks vs. a cursor over the model's sorted list",
-        "quick": {"shards": 16, "n": 900, "timeout": 600},
-        "thorough": {"shards": 16, "n": 40000, "timeout": 3000},
+        "quick": {"shards": 13, "n": 900, "timeout": 600, "extra": [{"test": "TestC02M", "n": 6000, "shards": 3}]},
+        "thorough": {"shards": 13, "n": 40000, "timeout": 3000, "extra": [{"test": "TestC02M", "n": 600000, "shards": 3}]},
         "floor": {"quick": 500, "thorough": 20000},
         "rule": "rapid draws a DB history (writes, deletes, batches, compactions, snapshots held so that hidden versions stay in the tables, transactions) interleaved with iterators on DB / snapshot / transaction with drawn ranges and drawn walks (First/Last/Seek/Next/Prev, up to 30 moves, long-lived iterators resumed later). "
-                "Every move's result, Valid(), Key and Value are compared with a cursor over the model's sorted restricted list; each iterator ends with a full forward and a full backward pass. "
+                "Every move's result, Valid(), Key and Value are compared with a cursor over the model's sorted restricted list; each iterator ends with a full forward and a full backward pass. A second search (TestC02M) drives the component iterators directly with the same walk generator and oracle: iterator.NewMergedIterator over 1-6 array iterators (some empty) and iterator.NewIndexedIterator over chunked arrays, under four comparers. "
                 "Non-trivial: the case has a walk with a direction reversal and a Seek, tables next to the write buffer (>=2 physical sources) and hidden entries (snapshot held or delete before compaction). distinct = distinct case fingerprints.",
         "level_text": "Exploration: generated walks over generated layouts, compared move by move with the documented cursor semantics; component iterators are covered additionally by C13/C14 checks. No exhaustiveness claim.",
         "level_note": "Trusted: cursor model (position -1..n), vfs storage. Ranges are always valid intervals (Start<=Limit).",
@@ -66,11 +66,11 @@ CHECKS = {
     "C07": {
         "test": "TestC07", "level": "exploration",
         "technique": "stateful property testing: long-lived iterators vs. model copies plus storage-listing invariants at quiescence",
-        "quick": {"shards": 12, "n": 300, "timeout": 600, "extra": [{"test": "TestC07F", "n": 120, "shards": 6}]},
-        "thorough": {"shards": 12, "n": 12000, "timeout": 3000, "extra": [{"test": "TestC07F", "n": 4000, "shards": 6}]},
+        "quick": {"shards": 12, "n": 300, "timeout": 600, "extra": [{"test": "TestC07F", "n": 120, "shards": 5}, {"test": "TestC07S", "n": 40, "shards": 3}]},
+        "thorough": {"shards": 12, "n": 12000, "timeout": 3000, "extra": [{"test": "TestC07F", "n": 4000, "shards": 5}, {"test": "TestC07S", "n": 1500, "shards": 3}]},
         "floor": {"quick": 300, "thorough": 10000},
         "rule": "rapid draws histories with long-lived iterators (OpenFilesCacheCapacity 1-2 so tables are reopened from storage), compactions, discarded transactions and reopen. Oracle A: every iterator is walked and fully scanned at the end and must equal its model copy; the storage flags any Open of a removed table. "
-                "Oracle B: at idle points (VerifWaitIdle) with no iterator or transaction alive, and after reopen, storage must hold exactly the live tables, one journal, the current manifest. Non-trivial: an iterator stayed alive across >=1 table removal and >=1 file-set check ran.",
+                "Oracle B: at idle points (VerifWaitIdle) with no iterator or transaction alive, and after reopen, storage must hold exactly the live tables, one journal, the current manifest. TestC07F: the fault workloads of C08 (no Remove faults) judged on the same 'no residue' rule once the injected failures have stopped and work has settled, and again after reopen. TestC07S (metamorphic): N rounds of rewriting the same K keys + full CompactRange must not make the table bytes grow with N (<= 2x round 1 + 4 KiB); deleting every key + full CompactRange with no snapshot held must leave <= 10% + 1 KiB of the previous table bytes. Non-trivial: an iterator stayed alive across >=1 table removal and >=1 file-set check ran.",
         "level_text": "Exploration over generated histories; both directions of the property (nothing needed deleted / nothing unneeded kept) are checked.",
         "level_note": "Trusted: VerifWaitIdle establishes quiescence (synchronises with the compaction goroutines and the reference loop); vfs listing.",
         "assumptions": DBM_ASSUME,
@@ -199,7 +199,7 @@ CHECKS = {
     "C19": {
         "test": "TestC19", "level": "exploration", "engine": "dbm",
         "technique": "property-based testing of leveldb.Recover over generated settled layouts with manifest loss and table-block damage; physical-entry oracle from the checker's own table/journal parsers",
-        "quick": {"shards": 16, "n": 300, "timeout": 600},
+        "quick": {"shards": 16, "n": 700, "timeout": 600},
         "thorough": {"shards": 16, "n": 15000, "timeout": 3000},
         "floor": {"quick": 500, "thorough": 10000},
         "replay_runs": 5,
@@ -213,7 +213,7 @@ CHECKS = {
     "C04": {
         "test": "TestC04", "level": "fault_enumeration", "engine": "crash",
         "technique": "crash-point injection over generated workloads: durability-tracking storage, admissible post-crash images, subset-solver oracle (rapid); thorough enumerates every crash instant of each generated history",
-        "quick": {"shards": 16, "n": 400, "timeout": 600},
+        "quick": {"shards": 16, "n": 1500, "timeout": 600},
         "thorough": {"shards": 16, "n": 40, "timeout": 3000},
         "floor": {"quick": 2000, "thorough": 30000},
         "replay_runs": 10,
@@ -253,7 +253,7 @@ CHECKS = {
     "C05": {
         "test": "TestC05", "level": "exploration", "engine": "conc",
         "technique": "property-based generation of concurrent client programs, schedule stretching through verif yield points, linearizability checking of the recorded history with porcupine",
-        "quick": {"shards": 16, "n": 120, "timeout": 900, "gomaxprocs": [0, 1, 2, 4]},
+        "quick": {"shards": 16, "n": 400, "timeout": 900, "gomaxprocs": [0, 1, 2, 4]},
         "thorough": {"shards": 16, "n": 6000, "timeout": 3400, "gomaxprocs": [0, 1, 2, 4, 16]},
         "floor": {"quick": 2000, "thorough": 50000},
         "shrink": False,
@@ -267,7 +267,7 @@ CHECKS = {
     "C10": {
         "test": "TestC10", "level": "exploration", "engine": "conc",
         "technique": "property-based generation of concurrent writer programs with racing lock competitors; invariant checking over the write-path event trace (verif hook) joined with call results",
-        "quick": {"shards": 16, "n": 150, "timeout": 900, "gomaxprocs": [0, 1, 2, 4]},
+        "quick": {"shards": 16, "n": 500, "timeout": 900, "gomaxprocs": [0, 1, 2, 4]},
         "thorough": {"shards": 16, "n": 8000, "timeout": 3400, "gomaxprocs": [0, 1, 2, 4, 16]},
         "floor": {"quick": 1000, "thorough": 30000},
         "shrink": False,
